@@ -74,7 +74,7 @@ def r1_equal_length(run, w):
   calls = [c for (n, c, nm) in dt.calls() if nm == "_transpose"]
   if len(calls) != 1:
     raise AnalysisError("_dump_table: one call of _transpose expected")
-  c = _coll(vd, calls[0].args[0]) if len(calls[0].args) == 1 and not calls[0].keywords else None
+  c = _coll(vd, vd.arg(calls[0], 0)) if len(calls[0].args) + len(calls[0].keywords) == 1 else None
   ok = c is not None and c.kind == "list" and _over_all(c, rows) and c.value == "_v0.values"
   run.ob(R1, dt.qualname, "_transpose([r.values for r in %s])" % rows,
          "one value dictionary per row reaches the transposition (no row is filtered out)", ok,
